@@ -196,6 +196,17 @@ def gen_cases(rng, tier):
         cases.append(_one_case(rng, k, {"kind": "scores", "bootstrap_method": m_, "history": 1.0, "nb_samples": 8,
                                         "metric": {"type": "name", "name": "fnr", "kwargs": {"threshold": enc(Fraction(1, 2))}}}))
         k += 1
+    # tiny classes under explicit single-pass sampling, many replicates: the at-least-one rescue (all multiplicities 0, about one
+    # sample in 16 per class) is part of the seeded stream, so two runs under one np.random.seed agree
+    for j_ in range(2):
+        c_ = _one_case(rng, k, {"kind": "scores", "bootstrap_method": "quantile", "nb_samples": 96,
+                                "metric": {"type": "callable", "id": "median_pos", "kwargs": {}},
+                                "sampler": {"type": "builtin", "sampling_method": "single_pass", "stratified": [None, "by_label"][j_],
+                                            "ratio": None, "seed": rng.randint(0, 10 ** 6)}})
+        c_["pos"], c_["neg"] = [enc(Fraction(1, 4)), enc(Fraction(3))], [enc(Fraction(-1)), enc(Fraction(2))]
+        c_["ep"] = c_["en"] = 0
+        cases.append(c_)
+        k += 1
     big = _one_case(rng, k, {"kind": "scores", "sampler": {"type": "builtin", "sampling_method": "dynamic", "stratified": None,
                                                             "ratio": None, "seed": 7},
                              "metric": {"type": "name", "name": "tpr", "kwargs": {"threshold": enc(Fraction(0))}}, "nb_samples": 5})
